@@ -650,6 +650,19 @@ class Auditor:
             tv = truth(g)
             if tv is not None:
                 env.append((c, tv))
+                # `matches!(x, a | b | ..)` / a boolean temp computed by a match: the guard on the temp is a membership fact
+                neg, y = False, c
+                while y[0] == 'un' and y[1] == 'Not':
+                    neg, y = not neg, y[2]
+                if y[0] == 'ite' and all(l[0] == 'int' and l[2] == 'bool' for _, l in y[2]):
+                    want = int(tv != neg)
+                    listed = [v for v, l in y[2] if v != 'otherwise']
+                    sel = [v for v, l in y[2] if v != 'otherwise' and l[1] == want]
+                    oth = [l[1] for v, l in y[2] if v == 'otherwise']
+                    if oth and oth[0] != want:
+                        env.append((('in', y[1], tuple(sel)), True))
+                    elif oth and oth[0] == want and len(sel) == 0:
+                        env.append((('notin', y[1], tuple(listed)), True))
             elif g['vals'] and 'otherwise' not in g['vals']:
                 env.append((('in', c, tuple(g['vals'])), True))
             elif g['vals'] == ['otherwise']:
